@@ -143,6 +143,47 @@ def gen_world(rng, policy=None, allow_zero_runtime=False, closed_loop=False, con
             "policy": policy}
 
 
+PLANNERS = ["ILP", "TetriSched_Gurobi", "TetriSched_CPLEX", "Z3"]
+
+
+def gen_planner_world(rng, policy):
+    """a small world driven by one of the optimisation-backed planners (kept tiny: size-limited solver licences)"""
+    w = gen_world(rng, policy=policy, conditionals=rng.random() < 0.3)
+    # at most 2 graphs, few invocations, short horizons
+    gs = w["workload"]["graphs"][:2]
+    for g in gs:
+        if g.get("release_policy") == "periodic":
+            g.update({"release_policy": "fixed", "invocations": 2})
+        if "invocations" in g:
+            g["invocations"] = min(g["invocations"], 2)
+        g["deadline_variance"] = [rng.choice([50, 200, 400])] * 2
+    w["workload"]["graphs"] = gs
+    used = {n["work_profile"] for g in gs for n in g["graph"]}
+    w["workload"]["profiles"] = [p for p in w["workload"]["profiles"] if p["name"] in used]
+    for p in w["workload"]["profiles"]:
+        for st in p["execution_strategies"]:
+            st["runtime"] = rng.choice([1, 2, 3, 5, 10])
+    f = w["flags"]
+    f.update({"scheduler_runtime": 0, "runtime_variance": 0, "loop_timeout": 10 ** 6,
+              "scheduler_lookahead": rng.choice([0, 0, 5, 50]), "release_taskgraphs": rng.random() < 0.3,
+              "retract_schedules": rng.random() < 0.3, "scheduler_run_at_worker_free": False,
+              "scheduler_frequency": rng.choice([-1, 1, 7]), "scheduler_delay": rng.choice([0, 1])})
+    f.pop("drop_skipped_tasks", None)
+    if policy == "ILP":
+        f["ilp_goal"] = rng.choice(["max_goodput", "max_slack"])
+        f["enforce_deadlines"] = True if f["ilp_goal"] == "max_goodput" else rng.random() < 0.5
+    elif policy == "Z3":
+        f["ilp_goal"] = "max_slack"
+        f["enforce_deadlines"] = rng.random() < 0.5
+        f["release_taskgraphs"] = False
+    else:
+        f["enforce_deadlines"] = rng.random() < 0.5
+        f["scheduler_time_discretization"] = rng.choice([1, 2, 5])
+        f["scheduler_plan_ahead"] = rng.choice([-1, 20])
+    w["wall_limit"] = 60
+    return w
+
+
 def signature(world):
     """input signatures of known findings (used to keep them out of the ordinary stream)"""
     sig = set()
